@@ -431,6 +431,25 @@ func (p *Proxy) handleConnectRequest(ctx *Context, req *http.Request, session *S
 		return nil
 	}
 
+	if res.StatusCode/100 != 2 {
+		// The downstream proxy refused the tunnel: its answer is relayed like any
+		// other response, with its framing, and there is nothing to tunnel.
+		var closing error
+		if req.Close || res.Close || p.Closing() {
+			res.Close = true
+			closing = errClose
+		}
+		if err := res.Write(brw); err != nil {
+			log.Errorf("martian: got error while writing response back to client: %v", err)
+			closing = errClose
+		}
+		if err := brw.Flush(); err != nil {
+			log.Errorf("martian: got error while flushing response back to client: %v", err)
+			closing = errClose
+		}
+		return closing
+	}
+
 	res.ContentLength = -1
 	if err := res.Write(brw); err != nil {
 		log.Errorf("martian: got error while writing response back to client: %v", err)
@@ -690,6 +709,7 @@ func (p *Proxy) connect(req *http.Request) (*http.Response, net.Conn, error) {
 
 		res, err := http.ReadResponse(pbr, req)
 		if err != nil {
+			conn.Close()
 			return nil, nil, err
 		}
 		if res.StatusCode/100 == 2 {
